@@ -51,6 +51,7 @@ type eqPair struct {
 	key, bytes string
 	ver        int
 	task, op   int
+	obj        unsafe.Pointer // a live copy, only for value types with pointers inside
 }
 
 type taskCtx struct {
@@ -642,7 +643,12 @@ func (x *runCtx) afterSet(tc *taskCtx, opi int, c *cell, op Op, before, after st
 func (x *runCtx) afterMutation(tc *taskCtx, opi int, c *cell, ci int, how string) {
 	if x.armed("C07") {
 		// same metric values => equal objects, whatever the history
-		tc.eq = append(tc.eq, eqPair{key: modelKey(c.spec.Ver, c.model), bytes: c.api.Bytes(c.p), ver: c.spec.Ver, task: tc.id, op: opi})
+		ep := eqPair{key: modelKey(c.spec.Ver, c.model), bytes: c.api.Bytes(c.p), ver: c.spec.Ver, task: tc.id, op: opi}
+		if !c.api.PtrFree() {
+			ep.obj = c.api.New()
+			c.api.Copy(ep.obj, c.p)
+		}
+		tc.eq = append(tc.eq, ep)
 	}
 	if x.armed("C09") {
 		x.wellFormed(tc, opi, c)
